@@ -1,10 +1,10 @@
 package mon
 
 import (
-	"math/rand"
 	"github.com/openconfig/goyang/pkg/yang"
 	"github.com/openconfig/ygot/ygot"
 	"github.com/openconfig/ygot/zzverif/lib"
+	"math/rand"
 )
 
 func init() { Monitors["C32"] = runC32 }
